@@ -2,7 +2,7 @@
    arguments (compared bit-for-bit up to the sign of zero, NaN = NaN), and the comparison of the model's
    outcome and trace with the ones recorded from the implementation. *)
 From Coq Require Import List ZArith Bool String Floats.PrimFloat.
-From LBFGSB Require Model.Dcsrch.
+From LBFGSB Require Model.Dcsrch Model.FCauchy Model.FSubspace Model.DriverKern.
 From LBFGSB Require Import Base.Res Model.SF Model.FloatVec Model.Driver Model.DriverDcs.
 Import ListNotations.
 Open Scope Z_scope.
@@ -128,3 +128,13 @@ Definition check_run_dcs (pw : list (float * float))
     (U : user) (search : vec -> vec -> mats -> Z -> vec) (dot : vec -> vec -> float) (c : cfg)
     (expected : res result) (trace : list ev) : Z :=
   if dcs_conforms (Dcsrch.sq_table pw) c t then check_run U (mkkern search (dcs_model (Dcsrch.sq_table pw)) dot) c expected trace else 40.
+
+(* as [check_run_dcs], with in addition the Cauchy-point + subspace kernel computed by the binary64 kernel models
+   (Model/DriverKern.v) from the model's own memory, the linear-algebra answers of every iteration being those recorded from
+   AST-instrumented copies of the current source of get_cauchy_point / subspace_minimization *)
+Definition check_run_kern (pw : list (float * float))
+    (t : list ((float * list (float * float * float)) * (float * Driver.task)))
+    (U : user) (B : DriverKern.blas) (dot : vec -> vec -> float) (c : cfg)
+    (expected : res result) (trace : list ev) : Z :=
+  if dcs_conforms (Dcsrch.sq_table pw) c t
+  then check_run U (DriverKern.kern_model B (dcs_model (Dcsrch.sq_table pw)) dot c) c expected trace else 40.
